@@ -56,6 +56,18 @@ type TemplatesShard struct {
 	Templates map[uint32]Data
 	sync.RWMutex
 }
+
+// MarshalJSON encodes the shard's templates under its read lock: Dump runs
+// while the workers keep inserting templates
+func (s *TemplatesShard) MarshalJSON() ([]byte, error) {
+	s.RLock()
+	defer s.RUnlock()
+
+	return json.Marshal(struct {
+		Templates map[uint32]Data
+	}{s.Templates})
+}
+
 type memCacheDisk struct {
 	Cache   MemCache
 	ShardNo int
